@@ -26,6 +26,8 @@ func c07Batches(tier string) fw.Result {
 	qs := []q{
 		{"having-alias", "SELECT k, sum(v) AS s, count(*) AS n FROM stream GROUP BY k, CountingWindow(2) HAVING s > 3", func(s float64) bool { return s > 3 }},
 		{"having-unselected", "SELECT k, sum(v) AS s, count(*) AS n FROM stream GROUP BY k, CountingWindow(2) HAVING max(v) > 1", func(s float64) bool { return s > 2 }},
+		{"distinct", "SELECT DISTINCT k, sum(v) AS s, count(*) AS n FROM stream GROUP BY k, CountingWindow(2)", func(s float64) bool { return true }},
+		{"order-limit", "SELECT k, sum(v) AS s, count(*) AS n FROM stream GROUP BY k, CountingWindow(2) ORDER BY s DESC LIMIT 3", func(s float64) bool { return true }},
 		{"having-expr-item", "SELECT k, sum(v) AS s, count(*) AS n, max(v) - min(v) AS sp FROM stream GROUP BY k, CountingWindow(2) HAVING sp > 0", func(s float64) bool { return s == 5 }},
 	}
 	vals := []float64{1, 4}
@@ -60,6 +62,9 @@ func c07Batches(tier string) fw.Result {
 				if r.ExecErr != "" || r.Status != sched.StatusOK {
 					a.fail("C07|batches|exec|"+qq.name, r.ExecErr+" "+r.Status.String()+" "+firstLine(r.Panic), cs, nil, nil)
 					return
+				}
+				if r.Mutated != "" {
+					a.fail("C07|batches|delivered-batch-altered-later|"+qq.name, qq.sql+": "+r.Mutated, cs, nil, nil)
 				}
 				var got []string
 				for _, b := range r.Batches {
@@ -145,6 +150,6 @@ func c07Batches(tier string) fw.Result {
 			}
 		})
 	}
-	a.sample(map[string]any{"queries": []string{qs[0].sql, qs[1].sql, qs[2].sql, tsql}, "values": vals, "keys": 2})
+	a.sample(map[string]any{"queries": []string{qs[0].sql, qs[1].sql, qs[2].sql, qs[3].sql, qs[4].sql, tsql}, "values": vals, "keys": 2})
 	return a.result()
 }
